@@ -191,7 +191,7 @@ class World:
                     out.append((name, 'missing', {'key': k, 'entities': sorted(self._name(m, i) for i in w - g)}))
         if vmf.spawn['classname'].casefold() != 'worldspawn':
             out.append(('worldspawn', 'reclassed', vmf.spawn['classname']))
-        elif not any(e is vmf.spawn for e in set.__iter__(vmf.by_class.get('worldspawn', ()))):
+        elif not any(e is vmf.spawn for e in set.__iter__(vmf.by_class.get('worldspawn', set()))):
             if not any(p[0] == 'by_class' and p[1] == 'missing' for p in out):
                 out.append(('worldspawn', 'unindexed', None))
         for q in queries:
